@@ -228,3 +228,21 @@ def has_noref(case):
         if m['k'] == 'templ' and '{' not in m['v'].replace('\\{', ''):
             return True
     return False
+
+
+def run_sequence(ctx, cases, style_fn=None, timeout=600):
+    """All cases in ONE worker process, one call after the other (state carried between calls shows up as a difference
+    to the independent runs).  Returns impl outcomes in order."""
+    wd = common.workdir()
+    items, dirs = [], []
+    for c in cases:
+        d = os.path.join(wd, 'seq%d_%d' % (id(cases) % 100000, len(items)))
+        os.makedirs(d)
+        items.append({'config': mapcase.materialise_files(c, d, style_fn(c) if style_fn else None), 'cwd': d})
+        dirs.append(d)
+    r = ctx.pool.map([{'fn': 'mat_seq', 'args': {'items': items}}], timeout=timeout, fresh=True)[0]
+    for d in dirs:
+        shutil.rmtree(d, ignore_errors=True)
+    if not r.get('ok'):
+        return [('exc', r.get('exc', 'Other'), r.get('msg', ''))] * len(cases)
+    return [impl_outcome({'ok': True, 'result': x}) for x in r['result']]
